@@ -9,10 +9,10 @@ package main
 // The OCaml driver (extracted Coq model) consumes op+o lines and prints its own r/s lines.
 
 import (
-	"os/exec"
 	"bufio"
 	"compress/gzip"
 	"crypto/sha256"
+	"encoding/hex"
 	"encoding/json"
 	"errors"
 	"fmt"
@@ -20,8 +20,8 @@ import (
 	"io/fs"
 	"math/rand"
 	"os"
+	"os/exec"
 	"path/filepath"
-	"encoding/hex"
 	"regexp"
 	"regexp/syntax"
 	"runtime/debug"
@@ -39,7 +39,7 @@ import (
 type Cfg struct {
 	Cache, Async, Compress, Lower bool
 	AsyncStruct                   bool // async off is expressed by a non-nil Async{Enable: false} (not part of the model's view)
-	Thr, To                       int // threshold, timeout in 100ms steps
+	Thr, To                       int  // threshold, timeout in 100ms steps
 	Ext                           string
 	Cons                          [NF]string // 4 flags each: index unique upper lower
 }
@@ -104,28 +104,28 @@ type srch struct {
 }
 
 type Exec struct {
-	root     string
-	db       *sod.DB
-	cfg      Cfg
-	uu       []string
-	un       map[string]int
-	searches map[int]*srch
-	w        *bufio.Writer
-	rng      *rand.Rand
-	virtual  bool
-	ctlDiffer     int  // before the last Control: uuids named by the directory vs uuids of schema.json: 1 differ, 0 agree, -1 unknown
-	otherN        int  // objects stored at creation in the second collection (shape.Other) of the handle; 0: unknown
+	root          string
+	db            *sod.DB
+	cfg           Cfg
+	uu            []string
+	un            map[string]int
+	searches      map[int]*srch
+	w             *bufio.Writer
+	rng           *rand.Rand
+	virtual       bool
+	ctlDiffer     int // before the last Control: uuids named by the directory vs uuids of schema.json: 1 differ, 0 agree, -1 unknown
+	otherN        int // objects stored at creation in the second collection (shape.Other) of the handle; 0: unknown
 	otherU        [2]string
-	repairTouched bool // the last Repair changed, added or removed an object file
-	lastColl []Flat // what the last Collect / One returned, in the order it was returned
-	lastRev  bool
-	failNext int // arm a storage fault at this FS op index for the next op (-1: none)
-	crash    bool // the armed fault is a crash
-	obs      []string // r/s lines of the current op (also kept for the direct oracles)
-	spec     *Spec
-	strs     map[string]bool // every string seen in this history (case / regex oracle tables)
-	lastFaultAt string
-	typ         Typ
+	repairTouched bool   // the last Repair changed, added or removed an object file
+	lastColl      []Flat // what the last Collect / One returned, in the order it was returned
+	lastRev       bool
+	failNext      int      // arm a storage fault at this FS op index for the next op (-1: none)
+	crash         bool     // the armed fault is a crash
+	obs           []string // r/s lines of the current op (also kept for the direct oracles)
+	spec          *Spec
+	strs          map[string]bool // every string seen in this history (case / regex oracle tables)
+	lastFaultAt   string
+	typ           Typ
 }
 
 func NewExec(root string, cfg Cfg, w *bufio.Writer, seed int64) *Exec {
@@ -446,8 +446,13 @@ func (e *Exec) of() sod.Object {
 	return e.typ.mk()
 }
 
+// ofU: the object handed to calls that identify an object by its uuid (Get, Exist, Delete ...): half of the
+// time it HOLDS DATA (an older copy being refreshed): what a read returns is what is stored, nothing else
 func (e *Exec) ofU(u int) sod.Object {
-	o := e.typ.mk()
+	var o sod.Object = e.typ.mk()
+	if e.rng.Intn(2) == 0 && e.typ.name == "shape.Rec" {
+		o = flatToRec(genRec(e.rng, e.cfg))
+	}
 	o.Initialize(e.ustr(u))
 	return o
 }
@@ -1096,6 +1101,10 @@ func (e *Exec) step(t []string) {
 	case "rmentry":
 		u, _ := strconv.Atoi(t[1])
 		e.emit("r %s", e.rmEntry(u))
+	case "rmfentry":
+		u, _ := strconv.Atoi(t[1])
+		fld, _ := strconv.Atoi(t[2])
+		e.emit("r %s", e.rmFieldEntry(u, fld))
 	case "stray":
 		e.emit("r %s", e.stray(t[1]))
 	default:
@@ -1594,6 +1603,49 @@ func (e *Exec) rmEntry(u int) string {
 	return cls(os.WriteFile(path, nd, 0600))
 }
 
+// rmFieldEntry: the entry of ONE object is removed from the index of ONE field in schema.json: the object
+// stays in the id table and in every other field index
+func (e *Exec) rmFieldEntry(u, fld int) string {
+	path := filepath.Join(e.colDir(), sod.SchemaFilename)
+	data, err := os.ReadFile(path)
+	if err != nil {
+		return cls(err)
+	}
+	dec := json.NewDecoder(strings.NewReader(string(data)))
+	dec.UseNumber()
+	var top map[string]interface{}
+	if err := dec.Decode(&top); err != nil {
+		return "json"
+	}
+	index, _ := top["index"].(map[string]interface{})
+	oids, _ := index["object-ids"].(map[string]interface{})
+	target := ""
+	for k, v := range oids {
+		if s, _ := v.(string); s == e.ustr(u) {
+			target = k
+		}
+	}
+	fidx, _ := index["fields"].(map[string]interface{})
+	fi, _ := fidx[shape.Paths[fld]].(map[string]interface{})
+	if target == "" || fi == nil {
+		return "notfound"
+	}
+	ents, _ := fi["index"].([]interface{})
+	out := []interface{}{}
+	for _, en := range ents {
+		tup, _ := en.([]interface{})
+		if len(tup) == 2 {
+			if id, _ := tup[1].(json.Number); id.String() == target {
+				continue
+			}
+		}
+		out = append(out, en)
+	}
+	fi["index"] = out
+	nd, _ := json.Marshal(top)
+	return cls(os.WriteFile(path, nd, 0600))
+}
+
 func (e *Exec) stray(kind string) string {
 	dir := e.colDir()
 	switch kind {
@@ -1626,7 +1678,6 @@ func dirHash(root string) string {
 }
 
 func atoi(s string) int { n, _ := strconv.Atoi(s); return n }
-
 
 // snapcheck copies the database directory and lets a child process judge the copy; "" when the
 // child could not run
